@@ -31,7 +31,8 @@ HAZARDS = [
     "missing_include", "dir_include", "undecodable_include", "nul_bytes_include", "empty_include", "self_include",
     "cycle2", "cycle3", "deep_chain", "long_name_include", "bad_encoding", "nested_in_directive", "include_twice",
     "long_link", "dir_link", "odd_links", "literal_include_binary", "include_md_doc", "discarded_body",
-    "discarded_body", "long_line",
+    "discarded_body", "long_line", "outside_srcdir_include", "relative_docs_include", "relative_docs_include",
+    "bad_urls",
 ]
 INV_HAZARDS = ["inv_missing", "inv_dir", "inv_bad_header", "inv_not_compressed", "inv_corrupt_zlib", "inv_bad_utf8",
                "inv_truncated", "inv_empty", "inv_ok", "inv_ok", "inv_ok"]
@@ -127,6 +128,25 @@ def apply(r, proj: dict, front_end: str, n: int) -> list[str]:
             n = r.choice([10_001, 10_050, 25_000])
             _append(files, doc, r.choice(["x" * n, "[^lfn]: " + "y " * (n // 2), "# " + "h" * n,
                                           "```{note}\n" + "z" * n + "\n```"]))
+        elif h == "outside_srcdir_include":
+            # the resolved target lies outside the project (source) directory: missing, or a directory
+            _append(files, doc, _inc(r.choice(["../../../../nowhere/x.inc", "../../../..", "../" * 6 + "etc/hostname-not.inc",
+                                               "/../../outside.inc", "../../../../nowhere/"]),
+                                     r.choice([None, {"literal": ""}, {"relative-docs": "."}])))
+        elif h == "relative_docs_include":
+            # links of every spelling rendered while an include with :relative-docs: is in effect
+            other = r.choice([d for d in docs if d != doc] or docs)[:-3]
+            files["inc/reldocs.inc"] = (
+                f"[a](/{other}.md) [b]({other}.md) <project:/{other}.md> <project:{other}.md#usage> [c](/index.md#intro) "
+                f"[d](../{other}.md) <path:/files/data.txt> <path:files/data.txt> [e](docs/{other}.md) [f](./x.md) "
+                f"![img](/img.png) ![img2](img.png) [g](/) [h](//double) [i](<docs/with space.md>)\n")
+            _append(files, doc, _inc(rel("inc/reldocs.inc"), {"relative-docs": r.choice(["docs/", "..", "/", ".", "sub/", "docs",
+                                                                                          "/docs/", "./"]),
+                                                             **({"relative-images": ""} if r.random() < 0.5 else {})}))
+        elif h == "bad_urls":
+            _append(files, doc, r.choice(["[a](inv://[abc#x)", "[a](http://[abc)", "<http://[abc>", "[a](https://[::1)",
+                                          "[a](wiki://[x)", "[a](inv:key:std:label#[)", "<inv:[#x>", "[a](http://a b/)",
+                                          "[a](http://\x7f/)", "[a](http://%zz/)", "<mailto:[x>", "[a](http://[abc]:x/)"]))
         elif h == "include_md_doc":
             other = r.choice([d for d in docs if d != doc] or docs)
             _append(files, doc, _inc(rel(other), r.choice([None, {"relative-docs": "."}, {"relative-images": ""}])))
